@@ -195,6 +195,30 @@ Verdict judge(const Case& c) {
               return v;
             }
         }
+        // ... also through the overloads that return closed paths only (open subjects loaded, no open output requested)
+        if (!tree) {
+          auto sameRegion = [&](const Paths64& a, const Paths64& b, int mul) {
+            if (O::canon(a) == O::canon(b)) return true;
+            for (auto& pt : S.pts) { Point64 q(pt.x * mul, pt.y * mul); if (O::winding(q, a).w != O::winding(q, b).w) return false; }
+            return true;
+          };
+          Clipper64 c3; c3.AddSubject(subj); c3.AddClip(clip); c3.AddOpenSubject(open);
+          Paths64 solC3;
+          if (!c3.Execute(ct, fr, solC3)) { v.fail("Execute(closed only) returned false" + cfg); return v; }
+          if (!sameRegion(solC3, solC2, 1)) { v.fail("Execute(ct, fr, closed) with open subjects loaded: closed region differs from the result without open subjects" + cfg); return v; }
+          Clipper64 c4; c4.AddSubject(subj); c4.AddClip(clip); c4.AddOpenSubject(open);
+          PolyTree64 t4;
+          if (!c4.Execute(ct, fr, t4)) { v.fail("Execute(tree only) returned false" + cfg); return v; }
+          if (!sameRegion(PolyTreeToPaths64(t4), solC2, 1)) { v.fail("Execute(ct, fr, tree) with open subjects loaded: closed region differs from the result without open subjects" + cfg); return v; }
+          // ClipperD, precision 0 (half-unit grid): compare in doubled coordinates
+          auto dbl = [](const PathsD& pp) { Paths64 r; for (auto& p : pp) { Path64 q; for (auto& pt : p) q.emplace_back((int64_t)std::llround(pt.x * 2), (int64_t)std::llround(pt.y * 2)); r.push_back(q); } return r; };
+          PathsD sd = TransformPaths<double, int64_t>(subj), cdd = TransformPaths<double, int64_t>(clip), od = TransformPaths<double, int64_t>(open);
+          ClipperD d1(0), d2(0); d1.AddSubject(sd); d1.AddClip(cdd); d1.AddOpenSubject(od); d2.AddSubject(sd); d2.AddClip(cdd);
+          PathsD r1, r2;
+          if (!d1.Execute(ct, fr, r1) || !d2.Execute(ct, fr, r2)) { v.fail("ClipperD::Execute(closed only) returned false" + cfg); return v; }
+          if (!sameRegion(dbl(r1), dbl(r2), 2)) { v.fail("ClipperD::Execute(ct, fr, closed) with open subjects loaded: closed region differs from the result without open subjects" + cfg); return v; }
+          v.evals += 3;
+        }
       }
   return v;
 }
